@@ -83,4 +83,7 @@ func init() {
 	add("C13", "R13l: every receiver field the map forest's restore function stores from a value read off the stream is stored on every path that goes on after the read. R13m: a struct field that memoizes a computed value is stored by every exported method that changes the struct.", "")
 	add("C14", "R14b also reports a sorted list with another sorted list appended behind it (order class 'concatenation') at a requires-sorted function.", "")
 	add("C15", "R15l: in delRootInfo the outermost loop around the step that marks a tracked root as emptied is left only through its own bound.", "")
+	add("C05", "R05h: a boolean that a function of the block-application and verification closure returns after a loop is not a flag that every iteration overwrites with what it found.", "")
+	add("C10", "R10k: every comparison of a row-0 position with the leaf count inside the reviewed existence test (inForest) is strict.", "")
+	add("C06", "R06j = R10k.", "")
 }
